@@ -43,7 +43,24 @@ type Program struct {
 	NoInlineNames map[string]bool
 	// DisableInline switches the interprocedural view off (anchor-collection pass, debugging).
 	DisableInline bool
+	// ResolvedSpecs records every function spec a rule resolved (for -dump-anchors);
+	// Relocated records anchors that were found under a new name (see relocate).
+	ResolvedSpecs map[string]*types.Func
+	Relocated     map[string]string
 }
+
+// FrozenAnchor describes an unexported anchor function on the pinned tree: who called it, and
+// which unexported functions of the package each of those callers called.  If the anchor no
+// longer resolves (renamed, method turned into a function), the unique NEW unexported callee
+// shared by all surviving callers is taken for it.
+type FrozenAnchor struct {
+	Callers []string            // FuncName form
+	Callees map[string][]string // caller → names of the unexported same-package functions it called
+	NParams int                 // parameters including the receiver
+}
+
+// FrozenAnchors is filled by package props (generated table).
+var FrozenAnchors = map[string]FrozenAnchor{}
 
 // ResetFns drops every cached analysis view (after the anchor-collection pass).
 func (p *Program) ResetFns() {
@@ -169,7 +186,7 @@ func (p *Program) pkgTypes(spec string) *types.Package {
 // Obj resolves "pkg:Name", "pkg:Type.member" (field or method; pointer
 // receiver methods included; interface methods included).  Returns nil if
 // the object does not exist.
-func (p *Program) Obj(spec string) types.Object {
+func (p *Program) objRaw(spec string) types.Object {
 	i := strings.LastIndex(spec, ":")
 	if i < 0 {
 		return nil
@@ -204,13 +221,101 @@ func (p *Program) Obj(spec string) types.Object {
 		}
 		obj = o
 	}
+	return obj
+}
+
+// Obj resolves an object spec (see objRaw); function objects are recorded as anchors, and an
+// unexported function anchor that no longer exists under its name is looked for under a new
+// name through its frozen callers (relocate).
+func (p *Program) Obj(spec string) types.Object {
+	obj := p.objRaw(spec)
+	if obj == nil {
+		if fa, ok := FrozenAnchors[spec]; ok {
+			if fn := p.relocate(spec, fa); fn != nil {
+				obj = fn
+			}
+		}
+	}
 	if fn, ok := obj.(*types.Func); ok {
 		if p.NoInline == nil {
 			p.NoInline = map[*types.Func]bool{}
 		}
 		p.NoInline[fn] = true
+		if p.ResolvedSpecs == nil {
+			p.ResolvedSpecs = map[string]*types.Func{}
+		}
+		p.ResolvedSpecs[spec] = fn
 	}
 	return obj
+}
+
+// relocate finds the function that took the place of a vanished unexported anchor.
+func (p *Program) relocate(spec string, fa FrozenAnchor) *types.Func {
+	if len(fa.Callers) == 0 {
+		return nil
+	}
+	p.buildIndexes()
+	byName := map[string]*FuncSrc{}
+	for _, d := range p.decls {
+		byName[FuncName(d.Obj)] = d
+	}
+	var cand map[*types.Func]int
+	surviving := 0
+	for _, cn := range fa.Callers {
+		caller := byName[cn]
+		if caller == nil || caller.Decl.Body == nil {
+			continue
+		}
+		surviving++
+		old := map[string]bool{}
+		for _, n := range fa.Callees[cn] {
+			old[n] = true
+		}
+		seen := map[*types.Func]bool{}
+		ast.Inspect(caller.Decl.Body, func(m ast.Node) bool {
+			ce, ok := m.(*ast.CallExpr)
+			if !ok {
+				return true
+			}
+			fn := Callee(caller.Pkg.TypesInfo, ce)
+			if fn == nil || fn.Exported() || fn.Pkg() == nil || fn.Pkg() != caller.Pkg.Types || old[fn.Name()] || seen[fn] {
+				return true
+			}
+			seen[fn] = true
+			return true
+		})
+		if cand == nil {
+			cand = map[*types.Func]int{}
+		}
+		for fn := range seen {
+			cand[fn]++
+		}
+	}
+	if surviving == 0 {
+		return nil
+	}
+	var found []*types.Func
+	for fn, k := range cand {
+		if k != surviving {
+			continue
+		}
+		sig := fn.Type().(*types.Signature)
+		np := sig.Params().Len()
+		if sig.Recv() != nil {
+			np++
+		}
+		if d := np - fa.NParams; d >= -1 && d <= 1 { // a method may have become a function (receiver dropped) or the reverse
+			found = append(found, fn)
+		}
+	}
+	if len(found) != 1 {
+		return nil
+	}
+	if p.Relocated == nil {
+		p.Relocated = map[string]string{}
+	}
+	p.Relocated[spec] = FuncName(found[0])
+	return found[0]
 }
 
 // Src returns the source of a declared function, or nil.
